@@ -28,7 +28,7 @@ RULE_TEXT = (
     "name in another, or a dotted name occurs, or >= 2 arrow forms are used."
 )
 ASSUMPTIONS = [
-    "lines carry no leading/trailing blanks; one diagram block per file",
+    "lines carry no leading/trailing blanks; one diagram block per file (text outside it may mention a tag, but contains no second start/end pair)",
     "alias tokens are disjoint from the component names of the same diagram",
     "names containing blanks are declared with an alias and referenced through it (as in the repository's fixtures)",
 ]
@@ -274,8 +274,14 @@ def diagrams(draw, shared_tokens=False):
     nlines = sum(1 for c in comps if c["decl"] != "none") + len(arrows)
     order = list(draw(st.permutations(list(range(nlines)))))
     drop = draw(st.sampled_from([None] * 9 + ["start", "end"]))
-    return {"components": comps, "arrows": arrows, "order": order, "pre": draw(outside_text()),
-            "post": "\n" + draw(outside_text()), "drop": drop}
+    pre, post = draw(outside_text()), "\n" + draw(outside_text())
+    if drop is None and draw(st.integers(0, 5)) == 0:
+        # prose around the diagram that mentions a tag: before the start tag it may mention the start tag, after the end
+        # tag the end tag - it stays text outside the tags
+        pre = "The diagram begins after @startuml below.\n" + pre
+    if drop is None and draw(st.integers(0, 5)) == 0:
+        post = post + "old draft:\n[ghost] --> [ghost9]\ncomponent ghost7\n(closed by the @enduml tag)\n"
+    return {"components": comps, "arrows": arrows, "order": order, "pre": pre, "post": post, "drop": drop}
 
 
 @st.composite
